@@ -51,6 +51,7 @@ class CheckDef:
         self.bounded = []        # descriptions of bounded stand-ins (never counted as proved)
         self.not_decided = []    # clauses of the property this check does not decide (n/a for the family)
         self.design_ref = ''
+        self.stubs = []          # assumed contracts of external / out-of-scope callees (listed in evidence)
         self.level = 'proof'
         self.explanation = ''
 
@@ -111,6 +112,8 @@ def match_known(known, v):
 def model_inputs(o, model_text):
     """concrete python inputs of the function from a solver model, or None"""
     inputs = o.extra.get('inputs') or {}
+    if not model_text or 'sat' not in model_text.split():
+        return None
     m = parse_model(model_text)
     out = {}
     for p, (kind, name, ty) in inputs.items():
@@ -183,6 +186,12 @@ class Runner:
         ip = self.new_interp()
         self.build(chk, ip, self)
         self.chk = chk
+        for u in chk.units:
+            if u.contract.mode == 'contract':
+                ip.contracts[u.contract.qual] = u.contract
+        for c in getattr(chk, 'stubs', []):
+            ip.contracts[c.qual] = c
+        self.base_contracts = dict(ip.contracts)
         func_summaries = []
         # lemmas
         if chk.lemmas:
@@ -202,6 +211,8 @@ class Runner:
                 del ip.obls[n0:]
                 self.undecided.append((u.contract.qual, 'contract does not bind to the current source: %s' % e))
         obls = list(ip.obls)
+        for lem in sorted(ip.used_lemmas - set(chk.lemmas)):
+            self.undecided.append(('lemma:' + lem, 'lemma instance used but the lemma is not proved in this check'))
         # vacuity: every function's precondition must be satisfiable and a normal exit reachable
         vac = self.vacuity(ip, chk)
         solver_wall = discharge(obls, self.specs, ip, tier=self.tier, seed=self.seed)
